@@ -133,6 +133,12 @@ CHECKS = {
             "All schedules of the contract for up to 6 chunks; hundreds of real schedules across pool sizes 1-16 and chunk counts from 1 to 1000 validated; serial "
             "and multithreaded Prio3 variants compared byte for byte under identical randomness.",
             "Real scheduler outcomes are sampled; rayon is assumed to implement its documented contract for schedules not observed."),
+    "C15": ("DESIGN.md#c15--exact-discrete-laplace--gaussian-samplers-scaled-right",
+            "TLA+ transcription of the CKS20 samplers as tape transducers (DpSamplers.tla); TLC enumerates every random tape up to a depth bound; each complete "
+            "tape replayed on the real sampler layers (hook H6); exact path masses checked against the defining laws; noise addition replayed with TLC-computed sums",
+            "Every tape of up to 8 (quick) / 10 (thorough) draws for 34 layer/parameter pairs: functional equivalence of the real samplers with the model on all of "
+            "them (outcome and consumed randomness), and the law of each layer bracketed exactly by explored mass and residual.",
+            "Exactness up to the reported residual mass; small rational parameters."),
 }
 
 NOT_YET = {}
